@@ -39,8 +39,15 @@ static EbPictureBufferDesc *mk_dst(void) {
 typedef struct Src { EbSvtIOFormat io; uint32_t sy, scb, scr; } Src;
 #define BPS (BITS == 8 ? 1 : 2)
 static uint8_t vis_y[VH][VW * 2], vis_cb[VH / 2][VW], vis_cr[VH / 2][VW];   /* the visible samples (bytes) shared by both callers */
-static void mk_src(Src *s) {
-    s->sy = VW + (uint32_t)vin_range(0, MAXEXTRA); s->scb = VW / 2 + (uint32_t)vin_range(0, MAXEXTRA); s->scr = VW / 2 + (uint32_t)vin_range(0, MAXEXTRA);
+#ifndef EXB_Y
+#define EXB_Y 5
+#define EXB_CB 3
+#define EXB_CR 1
+#endif
+/* strides are concrete per query (caller A: tight; caller B: width + EXB_*): symbolic strides turn every row copy
+   into a symbolic-length memcpy at a symbolic offset; every byte of both callers' planes stays symbolic */
+static void mk_src(Src *s, int second) {
+    s->sy = VW + (second ? EXB_Y : 0); s->scb = VW / 2 + (second ? EXB_CB : 0); s->scr = VW / 2 + (second ? EXB_CR : 0);
     s->io.y_stride = s->sy; s->io.cb_stride = s->scb; s->io.cr_stride = s->scr;
     s->io.width = VW; s->io.height = VH; s->io.color_fmt = EB_YUV420; s->io.bit_depth = BITS == 8 ? EB_8BIT : EB_10BIT;
     size_t ny = (size_t)s->sy * VH * BPS, ncb = (size_t)s->scb * (VH / 2) * BPS, ncr = (size_t)s->scr * (VH / 2) * BPS;
@@ -63,7 +70,7 @@ void harness(void) {
     scs.left_padding = scs.right_padding = scs.top_padding = scs.bot_padding = MARGIN; scs.subsampling_x = 1; scs.subsampling_y = 1;
     for (int y = 0; y < VH; y++) for (int x = 0; x < VW * BPS; x++) vis_y[y][x] = vin8();
     for (int y = 0; y < VH / 2; y++) for (int x = 0; x < (VW / 2) * BPS; x++) { vis_cb[y][x] = vin8(); vis_cr[y][x] = vin8(); }
-    Src a, b; mk_src(&a); mk_src(&b);
+    Src a, b; mk_src(&a, 0); mk_src(&b, 1);
     EbPictureBufferDesc *da = mk_dst(), *db = mk_dst();
     copy_frame_buffer(&scs, (uint8_t *)da, (uint8_t *)&a.io);
     copy_frame_buffer(&scs, (uint8_t *)db, (uint8_t *)&b.io);
